@@ -24,11 +24,11 @@ for id in $ids; do
      if [ "$rc" = "1" ]; then res="caught (exit 1, VIOLATION)"; elif [ "$rc" = "0" ]; then res="missed (exit 0)"; else res="harness error (exit $rc)"; fi
   fi
   echo "$id [$prop]: $res"
-  python3 - "$d/meta.json" "$res" "$classes" <<'PY'
+  python3 - "$d/meta.json" "$res" "$classes" "${VERIF_SCALE:-1.0}" <<'PY'
 import json,sys
-p,res,classes=sys.argv[1],sys.argv[2],sys.argv[3]
+p,res,classes,scale=sys.argv[1],sys.argv[2],sys.argv[3],sys.argv[4]
 m=json.load(open(p))
-m['final_confirmation']={'how':'git -C /repo apply patch.diff; ./check <property> quick; git -C /repo checkout -- .','target_check':res,'violation_classes':[c.strip() for c in classes.split('\n') if c.strip()]}
+m['final_confirmation']={'how':'git -C /repo apply patch.diff; ./check <property> quick'+('' if scale=='1.0' else ' (VERIF_SCALE=%s)'%scale)+'; git -C /repo checkout -- .','target_check':res,'violation_classes':[c.strip() for c in classes.split('\n') if c.strip()]}
 json.dump(m,open(p,'w'),indent=1)
 PY
 done
